@@ -99,6 +99,34 @@ def c12(ctx, replay):
 
 
 # ------------------------------------------------------------------------------------------------ C13
+def _modular_flush(ctx, replay, thorough):
+    """C13 speaks of networks of ANY topology: networks with control nodes (modules) too.  The behaviours of MC_ModularAct
+    (growth suite X07: histories, Flush, suffixes on small modular networks, feed-forward and recurrent) are replayed in
+    twin-only mode: the flushed real instance (standard network and fast solver) next to a freshly built twin, outputs,
+    results and per-node activation state compared after every suffix call.  Nothing is compared with the values
+    ModularAct.tla predicts here: how a modular network activates is not C13's business."""
+    mod_cases = ctx.path("modular_flush_cases.ndjson")
+    if replay is not None:
+        lines = [v["replay"]["failure"]["case"] for v in replay.get("violations", [])
+                 if v.get("replay", {}).get("kind") == "modular-flush" and v["replay"].get("failure", {}).get("case") is not None]
+        if not lines:
+            return
+        write_lines(mod_cases, lines)
+    else:
+        cfgs = ["MC_ModularAct.cfg", "MC_ModularAct_two.cfg", "MC_ModularAct_rec.cfg"]
+        if thorough:
+            cfgs = ["MC_ModularAct_thorough.cfg", "MC_ModularAct_two_thorough.cfg", "MC_ModularAct_rec_thorough.cfg"]
+        files = _cfgs(ctx, "MC_ModularAct", cfgs, 3000)
+        n = cat_files(mod_cases, files)
+        ctx.extra.setdefault("scope", {})["modular"] = {"configs": cfgs, "lines": n}
+    rep_file = ctx.path("modular_flush_report.json")
+    _, rep, _ = ctx.vh(["replay-modular", "-cases", mod_cases, "-out", rep_file, "-twin-only", "-maxpairs", "12" if thorough else "6"],
+                       expect_report=rep_file, pkg="vh_x07", timeout=3000)
+    rep["distinct_nontrivial"] = 0       # the non-trivial count of C13 stays "pairs on a network with feedback" of the main stage
+    ctx.add_report(rep, "modular-flush", traces=(rep.get("extra") or {}).get("history_suffix_pairs", 0))
+    ctx.extra["modular_flush"] = {"pairs": (rep.get("extra") or {}).get("history_suffix_pairs"), "networks": (rep.get("extra") or {}).get("networks")}
+
+
 @pipeline("C13")
 def c13(ctx, replay):
     thorough = ctx.tier == "thorough"
@@ -110,7 +138,7 @@ def c13(ctx, replay):
                 "through Genesis, with integer-closed and with the other activation types; cases = history/suffix pairs, "
                 "evaluations = API calls executed; non-trivial = pair on a network with feedback (cycle, self-loop or "
                 "time-delayed link) whose history activates after loading sensors")
-    ctx.assumptions = ["non-modular networks (quantifier of C13)",
+    ctx.assumptions = ["modular networks (control nodes): flushed instance against fresh twin only, on the networks of MC_ModularAct",
                        "a Flush that returns an error is reported as a violation (it never does on a non-modular network)",
                        "equal error results are part of 'behaves exactly like' (e.g. both report exceeded activation attempts)",
                        "the model does not generate calls after which a signal exceeds 1000 (simulation: 100) in magnitude (TLC integers are "
@@ -118,7 +146,8 @@ def c13(ctx, replay):
     cases_file = ctx.path("flush_cases.ndjson")
     maxpairs = 3000 if thorough else 400
     if replay is not None:
-        write_lines(cases_file, replay_cases(replay))
+        write_lines(cases_file, [v["replay"]["failure"]["case"] for v in replay.get("violations", [])
+                                 if v.get("replay", {}).get("kind") == "flush" and v["replay"].get("failure", {}).get("case") is not None])
     else:
         cfgs = ["MC_Flush.cfg", "MC_Flush_td.cfg", "MC_Flush_bias.cfg"]
         if thorough:
@@ -136,6 +165,7 @@ def c13(ctx, replay):
         ctx.extra["scope"] = {"history_and_suffix_lines": n, "bfs_configs": cfgs, "pairs_per_network_cap": maxpairs,
                               "simulate": "6 node shapes of 5-8 nodes (0-2 bias, 1-2 hidden, 1-2 outputs), 2..14 links (any "
                                           "digraph, time-delayed links), histories <= 4, suffixes of 3; seed %d" % ctx.seed}
+    _modular_flush(ctx, replay, thorough)
     rep_file = ctx.path("flush_report.json")
     _, rep, _ = ctx.vh(["replay-flush", "-cases", cases_file, "-out", rep_file, "-maxpairs", str(maxpairs)],
                        expect_report=rep_file, pkg="vh_solvers", timeout=3000)
